@@ -104,7 +104,7 @@ func C04(r *drv.Run) {
 	}
 	variants := amountVariants()
 	longV := longVariants()
-	r.Rule = fmt.Sprintf("bodies B from the core generator (alphabet {a,b}: occurrences overlap, lazy and bounded loops) plus fixed overlapping bodies; per (B, text) the `all` result A and %d amount clauses (top/take n, skip s, last n for n,s in 0..5, skip s take t for s,t in 0..4 - straddling len(A); a few spelled with leading zeros) as find and as replace commands; plus 6 fixed bodies (three of them over multi-byte characters, consumed in one piece and byte by byte) on texts with 14..20 matches under %d clauses with amounts 7..13, each number also spelled with one and two leading zeros (still decimal), and with amounts 100..301 (around 128 and 256) against a text with 300 matches. Oracle: each clause's result must deep-equal (every field, incl. MatchNumber, variables, replacement) the stated slice of A; A itself is checked against the reference matcher. Non-trivial = len(A) >= 2 and the clause cuts A properly (0 < window < len(A)); distinct by (B, text, clause).", len(variants), len(longV))
+	r.Rule = fmt.Sprintf("bodies B from the core generator (alphabet {a,b}: occurrences overlap, lazy and bounded loops) plus fixed overlapping bodies and four bodies whose named loops capture, are back-referenced from inside and outside, or reuse the name of an earlier capture; per (B, text) the `all` result A and %d amount clauses (top/take n, skip s, last n for n,s in 0..5, skip s take t for s,t in 0..4 - straddling len(A); a few spelled with leading zeros) as find and as replace commands; plus 6 fixed bodies (three of them over multi-byte characters, consumed in one piece and byte by byte) on texts with 14..20 matches under %d clauses with amounts 7..13, each number also spelled with one and two leading zeros (still decimal), and with amounts 100..301 (around 128 and 256) against a text with 300 matches. Oracle: each clause's result must deep-equal (every field, incl. MatchNumber, variables, replacement) the stated slice of A; A itself is checked against the reference matcher. Non-trivial = len(A) >= 2 and the clause cuts A properly (0 < window < len(A)); distinct by (B, text, clause).", len(variants), len(longV))
 	r.Assumptions = []string{"`last n` only for n >= 1 (the property's range)", "A itself judged by the C01 reference so the relation cannot hold vacuously on a wrong A"}
 	fixed := [][]gen.Node{
 		{gen.Lit{S: "aa"}},
@@ -113,6 +113,18 @@ func C04(r *drv.Run) {
 		{gen.Lit{S: "a"}, gen.Loop{Min: 0, Max: 1, Form: "maybe", Body: gen.Lit{S: "a"}}},
 		{gen.Capture{Name: "x", Body: gen.Class{Kind: "letter"}}, gen.Loop{Min: 0, Max: 1, Form: "maybe", Body: gen.BackRef{Name: "x"}}},
 	}
+	// named loops whose captures and names interact with back-references (the name of a loop is also the scope of
+	// what it captures; a loop may reuse the name of an earlier capture): whatever these mean, they mean the same
+	// under every clause. Their `all` result is not judged against the reference, only the windows against it.
+	nFixedPlain := len(fixed)
+	any1 := gen.Class{Kind: "any"}
+	fixed = append(fixed,
+		[]gen.Node{gen.Or{Alts: []gen.Node{gen.Seq{Items: []gen.Node{gen.Loop{Min: 1, Max: -1, Form: "atleast", Name: "pairs", Body: gen.Seq{Items: []gen.Node{gen.Capture{Name: "c", Body: any1}, gen.BackRef{Name: "c"}}}}}}, gen.Lit{S: "x"}}}},
+		[]gen.Node{gen.Or{Alts: []gen.Node{gen.Seq{Items: []gen.Node{gen.Capture{Name: "k", Body: gen.Lit{S: "a"}}, gen.Loop{Min: 1, Max: -1, Form: "atleast", Name: "k", Body: gen.Lit{S: "b"}}, gen.BackRef{Name: "k"}}}, gen.Lit{S: "b"}, gen.Lit{S: "a"}}}},
+		[]gen.Node{gen.Or{Alts: []gen.Node{gen.Seq{Items: []gen.Node{gen.Loop{Min: 1, Max: 2, Form: "between", Name: "it", Body: gen.Seq{Items: []gen.Node{gen.Capture{Name: "c", Body: gen.Class{Kind: "letter"}}}}}, gen.BackRef{Name: "c"}}}, gen.Class{Kind: "digit"}, gen.Lit{S: "b"}}}},
+		[]gen.Node{gen.Capture{Name: "c", Body: gen.Class{Kind: "letter"}}, gen.Loop{Min: 0, Max: -1, Form: "atleast", Name: "rest", Body: gen.Seq{Items: []gen.Node{gen.Capture{Name: "d", Body: gen.Class{Kind: "digit"}}}}}, gen.Loop{Min: 0, Max: 1, Form: "maybe", Body: gen.BackRef{Name: "c"}}, gen.Loop{Min: 0, Max: 1, Form: "maybe", Body: gen.BackRef{Name: "d"}}},
+	)
+	namedTexts := [][]byte{[]byte("aaxbbxx"), []byte("abaabba"), []byte("ab1ba2aa bb7"), []byte("a1a b22b c3 d"), []byte("xxaabbxbaab1")}
 	longBodies := [][]gen.Node{
 		{gen.Lit{S: "ab"}},
 		{gen.Class{Kind: "letter"}},
@@ -161,6 +173,10 @@ func C04(r *drv.Run) {
 		if long {
 			texts = longTexts
 		}
+		namedFixed := !long && i >= nFixedPlain && i < len(fixed)
+		if namedFixed {
+			texts = append(texts, namedTexts...)
+		}
 		srcs := [][]byte{[]byte(gen.RenderProgram(p))}
 		for _, am := range variants {
 			q := *p
@@ -207,6 +223,12 @@ func C04(r *drv.Run) {
 				}
 				// A itself
 				alts, gaveUp := expectedScans(p, body, string(text), 400000)
+				if namedFixed {
+					gaveUp = true
+					if len(A.Matches) >= 3 {
+						r.Count("named_loop_scope_bodies_with_three_or_more_matches", 1)
+					}
+				}
 				if !gaveUp {
 					ok := false
 					for _, a := range alts {
@@ -252,6 +274,9 @@ func C04(r *drv.Run) {
 	})
 	if r.NViolations() == 0 {
 		expensiveFloor(r)
+		if r.Counter("named_loop_scope_bodies_with_three_or_more_matches") == 0 {
+			r.Inconclusive("coverage floor: named_loop_scope_bodies_with_three_or_more_matches = 0")
+		}
 		for _, k := range []string{"top", "take", "skip", "skiptake", "last", "leading_zero", "two_digit"} {
 			if r.Counter("proper_windows_"+k) == 0 {
 				r.Inconclusive("no proper window observed for clause " + k)
